@@ -110,6 +110,18 @@ func cmdCheck(args []string) {
 					tagged = true
 				}
 			}
+			for _, invs := range con.LoopInvs {
+				for _, cl := range invs {
+					if hasProp(cl.Props, *prop) {
+						tagged = true
+					}
+				}
+			}
+			for _, aa := range con.Asserts {
+				if hasProp(aa.Clause.Props, *prop) {
+					tagged = true
+				}
+			}
 			if !tagged {
 				continue
 			}
@@ -144,13 +156,24 @@ func cmdCheck(args []string) {
 	if len(results) == 0 {
 		toolErr("no function under contract for property %s", *prop)
 	}
+	for _, fr := range results {
+		if fr.UsesSum {
+			for _, lr := range lemmaResults() {
+				for _, o := range lr.Obls {
+					o.Props = []string{*prop}
+				}
+				results = append(results, lr)
+			}
+			break
+		}
+	}
 
 	// discharge
 	var all []*oblOutcome
 	for _, fr := range results {
 		for _, o := range fr.Obls {
-			if *prop != "" && !hasProp(o.Props, *prop) {
-				continue
+			if *prop != "" && !hasProp(o.Props, *prop) && !o.Cover {
+				continue // (vacuity covers belong to every property the function is checked under)
 			}
 			if *onlyObl != "" && o.Name != *onlyObl && !o.Cover {
 				continue
@@ -191,6 +214,63 @@ func cmdCheck(args []string) {
 		}(oc)
 	}
 	wg.Wait()
+
+	// Proof by cases for obligations no solver decided as a whole: when the
+	// obligation's state is an ite-merge over control-flow edges (Cases), each
+	// edge condition is asserted in turn, plus the residual case "none of them";
+	// the obligation is discharged iff every case is unsat. A `sat` case is a
+	// counterexample of the obligation itself.
+	byCases := 0
+	for _, oc := range all {
+		if oc.O.Cover || oc.OK || oc.FR.Unbound != "" || len(oc.O.Cases) < 2 || len(oc.O.Cases) > 12 || (oc.R.Status != "unknown" && oc.R.Status != "timeout") {
+			continue
+		}
+		wg.Add(1)
+		go func(oc *oblOutcome) {
+			defer wg.Done()
+			base := oc.FR.Builder.script(oc.O.Pos)
+			cases := append([]Term{}, oc.O.Cases...)
+			cases = append(cases, not(or(oc.O.Cases...)))
+			res := make([]SolveResult, len(cases))
+			var cw sync.WaitGroup
+			for i, c := range cases {
+				cw.Add(1)
+				go func(i int, c Term) {
+					defer cw.Done()
+					sem <- struct{}{}
+					defer func() { <-sem }()
+					q := base + "(assert " + c + ")\n(assert (not " + oc.O.Goal + "))\n"
+					res[i] = solve(fmt.Sprintf("%s_%s_case%d", *prop, oc.O.Name, i), q, oc.O.Model, timeout, false, false)
+				}(i, c)
+			}
+			cw.Wait()
+			allUnsat := true
+			tot := oc.R.Time
+			for _, r := range res {
+				tot += r.Time
+				if r.Status == "sat" {
+					r.Time = tot
+					oc.R = r
+					return
+				}
+				if r.Status != "unsat" {
+					allUnsat = false
+				}
+			}
+			if allUnsat {
+				oc.R = SolveResult{Status: "unsat", Solver: fmt.Sprintf("by-cases(%d)", len(cases)), Time: tot, Raw: oc.R.Raw}
+				oc.OK = true
+			} else {
+				oc.R.Time = tot
+			}
+		}(oc)
+	}
+	wg.Wait()
+	for _, oc := range all {
+		if oc.OK && strings.HasPrefix(oc.R.Solver, "by-cases") {
+			byCases++
+		}
+	}
 
 	// Second round for obligations no solver decided (unknown / timeout, never
 	// for a `sat` answer): the same query, three times the per-obligation limit,
@@ -350,6 +430,35 @@ func cmdCheck(args []string) {
 			addAssume(fmt.Sprintf("extern contract %s assumed: ensures [%s] modifies [%s]", x, strings.Join(ens, "; "), strings.Join(c.Modifies, ", ")))
 		}
 	}
+	// preconditions nobody in this check discharges: a function under contract
+	// none of whose call sites is verified under this property has its active
+	// preconditions as hypotheses of the property's chain
+	calledHere := map[string]bool{}
+	for _, oc := range all {
+		if i := strings.Index(oc.O.Name, "/requires@"); i >= 0 {
+			rest := oc.O.Name[i+len("/requires@"):]
+			if j := strings.LastIndex(rest, "#"); j >= 0 {
+				calledHere[rest[:j]] = true
+			}
+		}
+	}
+	for _, name := range funcsUnder {
+		con := cs.Funcs[name]
+		if con == nil || calledHere[name] {
+			continue
+		}
+		for _, rq := range con.Requires {
+			if clauseActive(rq) {
+				addAssume(fmt.Sprintf("precondition of %s is a hypothesis of this check (no call site of it is verified under %s): %s", name, *prop, rq.Src))
+			}
+		}
+	}
+	for _, fr := range results {
+		if fr.UsesSum {
+			addAssume("fold lemmas (isum: empty, one, step, extensionality, non-negativity, concatenation) are PROVED by induction in this run: obligations prelude/isum-*")
+			break
+		}
+	}
 	addAssume("integers: SMT Int with explicit two's-complement wrap after +,-,*,conversions (exact)")
 	addAssume("append modelled as copying into a fresh backing array")
 	addAssume("termination not proved (partial correctness)")
@@ -373,6 +482,7 @@ func cmdCheck(args []string) {
 			"by_solver":                bySolver,
 			"solver_time_s":            round3(solverTime),
 			"second_round_obligations": retried,
+			"discharged_by_cases":      byCases,
 			"vacuity_covers":           covers,
 			"vacuity_covers_inconclusive": coversInconclusive,
 			"samples":                  samples,
